@@ -332,13 +332,16 @@ theorem reopen_twice (cfg : Cfg) (ops : List Op) (s : Storage)
   have hi := inv_run cfg ops _ _ (inv_empty cfg) h
   rw [abs_reopen_of_inv cfg _ (inv_reopen cfg s hi), abs_reopen_of_inv cfg s hi]
 
-/-! ## Known finding: `VerifyRemoteChunk` on a pending chunk without certificate
+/-! ## Repaired defect: `VerifyRemoteChunk` on a pending chunk without certificate
 
-`reopen_abs_eq` is about `abs`; certificates are not persisted by design. But `VerifyRemoteChunk`
-dereferences the certificate of an already pending chunk (`chunkCertInfo.Cert.Signature`,
-storage.go), so the *answer* to a repeated signature request does change across a restart: before
-it the chunk's certificate is known, after it the call panics (nil pointer). With the guard of
-`fixes/C36-verify-remote-chunk-nil-cert.patch` (`cfg.nilCertGuard`) the answer is the same. -/
+`reopen_abs_eq` is about `abs`; certificates are not persisted by design. Before /repo b8e022c
+`VerifyRemoteChunk` dereferenced the certificate of an already pending chunk
+(`chunkCertInfo.Cert.Signature`), so the *answer* to a repeated signature request changed across a
+restart: before it the chunk's certificate was known, after it the call panicked (nil pointer).
+The code now guards the nil certificate (`cfg.nilCertGuard = true`, the model's default, probed
+from the running code by the harness): `verifyRemote_pending_guarded`. The two theorems with
+`nilCertGuard = false` below are about the code *before* that commit and are kept as the record of
+the defect. -/
 
 /-- a pending chunk answers `known` or `panic`, never anything else, and the state is untouched -/
 theorem verifyRemote_pending (cfg : Cfg) (s : Storage) (i : Nat) (h : hasPending s i = true) :
@@ -368,7 +371,7 @@ theorem find_reopen_none_cert (cfg : Cfg) (l : List Nat) : ∀ (acc : Storage) (
     · exact h x hx.1
     · rfl
 
-/-- **with the guard** a repeated signature request for a pending chunk is answered `known`
+/-- **with the guard (the code as it is)** a repeated signature request for a pending chunk is answered `known`
 before and after a reopen (and in every other state) -/
 theorem verifyRemote_pending_guarded (cfg : Cfg) (hg : cfg.nilCertGuard = true) (s : Storage) (i : Nat)
     (h : hasPending s i = true) : (verifyRemote cfg s i).2 = .known := by
@@ -382,7 +385,7 @@ theorem verifyRemote_pending_guarded (cfg : Cfg) (hg : cfg.nilCertGuard = true) 
     obtain ⟨e, he, hei⟩ := h
     exact absurd hei (hnone e he)
 
-/-- **without the guard (the code as it is; known finding `reopen-turns-known-into-panic`)**
+/-- **without the guard (the code before b8e022c; finding `reopen-turns-known-into-panic`, fixed)**
 after a reopen *every* pending chunk makes `VerifyRemoteChunk` panic, whatever it answered before -/
 theorem verifyRemote_after_reopen_panics (cfg : Cfg) (hg : cfg.nilCertGuard = false) (s : Storage) (i : Nat)
     (h : hasPending (reopen cfg s) i = true) : (verifyRemote cfg (reopen cfg s) i).2 = .panic := by
@@ -402,9 +405,10 @@ theorem verifyRemote_after_reopen_panics (cfg : Cfg) (hg : cfg.nilCertGuard = fa
     obtain ⟨e, he, hei⟩ := h
     exact absurd hei (hn e he)
 
-/-- concrete witness: chunk 1 is pending with its certificate; `VerifyRemoteChunk` answers
-`known` before the reopen and panics after it -/
-def nfCfg : Cfg := { U := fun i => ⟨i % 2, 10 + i, 100 + i, true⟩, window := 20, limit := 1000, maxSkew := 30 }
+/-- concrete witness for the code before b8e022c: chunk 1 is pending with its certificate;
+`VerifyRemoteChunk` answers `known` before the reopen and panics after it -/
+def nfCfg : Cfg :=
+  { U := fun i => ⟨i % 2, 10 + i, 100 + i, true⟩, window := 20, limit := 1000, maxSkew := 30, nilCertGuard := false }
 def nfS : Storage := putVerified nfCfg Storage.empty 1 (some ⟨1, 11, true⟩)
 theorem c36_known_becomes_panic :
     (verifyRemote nfCfg nfS 1).2 = .known ∧ (verifyRemote nfCfg (reopen nfCfg nfS) 1).2 = .panic := by decide
